@@ -11,6 +11,9 @@ CONSTANTS
     MaxNow = 1000
     MaxOps = 1000
     MaxQ = 2
+    MaxLen = 9
+    BigOn = 3
+    WithFault = TRUE
     EmptyOn = 1
     Hist = FALSE
     Depth = 150
